@@ -149,6 +149,10 @@ def slice_grid_search(log):
             wants.append('OK %s' % bool(c))
         exprs.append('len(%r)' % (tp,))
         wants.append('OK %d' % n)
+        for c in (xs, tp):
+            for y in (-1, 0, n - 1, n, 1.0, 'a', None):
+                exprs.append('%r in %r' % (y, c))
+                wants.append('OK %s' % (y in c))
         for i in list(range(-8, 9)):
             exprs.append('%r[%d]' % (tp, i))
             try:
